@@ -43,6 +43,22 @@ def run(c):
     R, I, A = rd("req.txt"), rd("impl.txt"), rd("aux.txt")
     fresh = os.path.join(c.work, "fresh")
     os.makedirs(fresh, exist_ok=True)
+    # `ans` after a result that is a machine float (NaN and infinities included) denotes that result
+    last_float, hist2 = False, []
+    for i, a in enumerate(A):
+        if not a:
+            continue
+        a = json.loads(a)
+        if a["k"] == "reset":
+            last_float, hist2 = False, []
+        elif a["k"] == "q":
+            p = I[i].split(" ")
+            if a["text"].strip() == "ans" and a["flag"] and last_float and not I[i].startswith("number float"):
+                c.violation(" ;; ".join(hist2 + ["ans"]), "history %r: the previous answer was a machine float, `ans` answered %r" % (hist2 + ["ans"], I[i][:100]),
+                            {"kind": "history", "history": hist2 + ["ans"], "impl": I[i]}, found=True)
+            if a["flag"] and p[0] == "number":
+                last_float = len(p) > 1 and p[1] == "float"
+            hist2.append(a["text"])
     lines, back = [], []
     ans = None
     hist = []
